@@ -1,6 +1,7 @@
 package main
 
 import (
+	"time"
 	"context"
 	"encoding/json"
 	"fmt"
@@ -16,8 +17,11 @@ import (
 func init() { runners["C19"] = runC19 }
 
 type c19Step struct {
-	Trig    string `json:"trig"`    // init | initialized | change | change_err | change_empty
+	Trig    string `json:"trig"`    // init | initialized | change | change_err | change_empty | overlap
 	Payload string `json:"payload"` // JSON text
+	// overlap: two change notifications; the client answers the first pull (Payload) only after the second
+	// (Payload2) has been pulled, answered and stored: the answers arrive in the order Payload2, Payload
+	Payload2 string `json:"payload2,omitempty"`
 }
 type c19Case struct {
 	Steps []c19Step `json:"steps"`
@@ -181,8 +185,15 @@ func c19Gen(r *rng, st *stats) (c19Case, bool) {
 		}
 		p, pnt := c19Payload(r, st, 0)
 		nt = nt || pnt
-		st.count("trig:" + trig)
-		c.Steps = append(c.Steps, c19Step{Trig: trig, Payload: p})
+		step := c19Step{Trig: trig, Payload: p}
+		if trig == "change" && r.chance(20) {
+			step.Trig = "overlap"
+			p2, pnt2 := c19Payload(r, st, 0)
+			nt = nt || pnt2
+			step.Payload2 = p2
+		}
+		st.count("trig:" + step.Trig)
+		c.Steps = append(c.Steps, step)
 	}
 	return c, nt
 }
@@ -257,6 +268,43 @@ func c19Run(c c19Case) (string, error) {
 				if _, err := doInit(nil); err != nil {
 					return "", err
 				}
+			}
+			if s.Trig == "overlap" {
+				var raw2 interface{}
+				if err := json.Unmarshal([]byte(s.Payload2), &raw2); err != nil {
+					return "", fmt.Errorf("payload %q: %v", s.Payload2, err)
+				}
+				g2, err := jsonToGallina(s.Payload2)
+				if err != nil {
+					return "", err
+				}
+				gate := make(chan struct{})
+				stub.mu.Lock()
+				stub.cfgErr, stub.cfgReply, stub.cfgHold = false, []interface{}{raw}, gate
+				held := stub.cfgHeld
+				stub.mu.Unlock()
+				if err := srv.DidChangeConfiguration(ctx, &protocol.DidChangeConfigurationParams{}); err != nil {
+					return "", err
+				}
+				if !waitUntil(func() bool { stub.mu.Lock(); defer stub.mu.Unlock(); return stub.cfgHeld == held+1 }, 10*time.Second) {
+					return "", fmt.Errorf("the first configuration pull did not arrive")
+				}
+				stub.mu.Lock()
+				stub.cfgReply = []interface{}{raw2}
+				stub.mu.Unlock()
+				if err := srv.DidChangeConfiguration(ctx, &protocol.DidChangeConfigurationParams{}); err != nil {
+					return "", err
+				}
+				if !quiesce(base + 1) {
+					return "", fmt.Errorf("configuration refresh did not finish")
+				}
+				steps = append(steps, fmt.Sprintf("(mkStep TChange %s %s None)", g2, gSettings(srv.VerifGetSettings())))
+				close(gate)
+				if !quiesce(base) {
+					return "", fmt.Errorf("configuration refresh did not finish")
+				}
+				steps = append(steps, fmt.Sprintf("(mkStep TChange %s %s None)", g, gSettings(srv.VerifGetSettings())))
+				continue
 			}
 			stub.mu.Lock()
 			stub.cfgErr = s.Trig == "change_err"
